@@ -69,6 +69,10 @@ class Interp(OpsMixin, BuiltinsMixin):
         for st in self.tree.body:
             self.exec_stmt(st, self.globals)
         self.module_loaded = True
+        from .values import next_serial
+
+        # every heap object created by the module body (class attributes, module constants) has a smaller serial
+        self.module_mark = next_serial()
 
     def log_write(self, obj, field):
         self.writes.append((obj.serial if hasattr(obj, "serial") else id(obj), field))
